@@ -20,11 +20,13 @@ import (
 	"verifsim/simnet"
 )
 
-const (
+// The two passwords every scenario configures. C19 replaces them per run with fresh sentinels.
+var (
 	srcPassword = "SRCpw-7f3a9c1e5b"
 	tgtPassword = "TGTpw-d41d8cd98f"
-	epochMs     = 946684800000 // the bubble's clock starts at 2000-01-01T00:00:00Z
 )
+
+const epochMs = 946684800000 // the bubble's clock starts at 2000-01-01T00:00:00Z
 
 // targetFlavours: what the modelled target understands, by version.
 type flavour struct {
